@@ -17,6 +17,7 @@ pub uninterp spec fn alnum(c: char) -> bool;
 //@include prelude/lex_model.rs
 //@include spec/strmap.rs
 //@include spec/canon.rs
+//@include spec/canon_idem.rs
 //@fmtfns
 
 //@verify canonize_subform
